@@ -51,7 +51,7 @@ var opForms = []string{
 	"{% if a == b %}T{% else %}F{% endif %}", "{% if a < b %}T{% endif %}", "{% if a contains b %}T{% endif %}",
 	"{% if a and b %}T{% endif %}", "{% if a or b %}T{% endif %}", "{% unless a >= b %}T{% endunless %}",
 	"{% case a %}{% when b %}W{% else %}E{% endcase %}", "{% case a %}{% when 1, b, a %}W{% endcase %}",
-	"{{ a[b] }}", "{{ a.size }}{{ a.first }}{{ a.last }}{{ a.x }}{{ a.a }}", "{{ a.URL }}{{ b.URL }}{{ a.X }}{{ b.X }}{{ a.A }}{{ b[\"URL\"] }}{{ a.Fn }}{{ a.NilFn }}{{ a.hidden }}{{ a.PtrNil.X }}{% if a contains \"URL\" %}1{% endif %}", "{{ a.b.c }}{{ a[0][b] }}{{ a[-1] }}", "{{ (a..b) }}",
+	"{{ a[b] }}", "{{ a.size }}{{ a.first }}{{ a.last }}{{ a.x }}{{ a.a }}", "{{ a.URL }}{{ b.URL }}{{ a.X }}{{ b.X }}{{ a.A }}{{ b[\"URL\"] }}{{ a.Fn }}{{ a.NilFn }}{{ a.hidden }}{{ a.PtrNil.X }}{% if a contains \"URL\" %}1{% endif %}", "{{ a.Zone }}{{ a.Year }}{{ a.Unix }}{{ a.Date }}{{ a.String }}{{ b.Clock }}{{ a.IsZero }}{{ a.Location }}{{ a.Month }}{{ b.ISOWeek }}{{ a.UTC }}{{ a.Add }}", "{{ a.b.c }}{{ a[0][b] }}{{ a[-1] }}", "{{ (a..b) }}",
 	"{% for i in a offset: b %}{{ i }}{% else %}E{% endfor %}", "{% for i in a limit: b %}{{ i }}{% endfor %}",
 	"{% for i in a reversed %}{{ i }}{{ forloop.index }}{% endfor %}",
 	"{% for i in a %}{% cycle a, b %}{% endfor %}", "{% for i in l %}{% cycle 'g': 'x', 'y' %}{{ i[b] }}{% endfor %}",
